@@ -336,6 +336,68 @@ func c04Random(g *Gen, n int) addchain.Program {
 	return p
 }
 
+// c04Runs builds a program in the style of the runs algorithms: values 2^n - 1 obtained as
+// (2^a - 1) << b + (2^b - 1), with the shifts as doubling runs, interleaved with a few small
+// additions. Such programs exercise the `x<n>` names (runs longer than 8 bits), the `_<binary>`
+// names and, for the shifted intermediates that are read twice, the `i<index>` names.
+func c04Runs(g *Gen, steps int) addchain.Program {
+	vals := []*big.Int{big.NewInt(1)}
+	seen := map[string]int{"1": 0}
+	p := addchain.Program{}
+	// add returns the index holding vals[i]+vals[j], appending an operation only for a new value
+	add := func(i, j int) int {
+		s := new(big.Int).Add(vals[i], vals[j])
+		if k, ok := seen[s.String()]; ok {
+			return k
+		}
+		if s.BitLen() > 900 {
+			return -1
+		}
+		seen[s.String()] = len(vals)
+		vals = append(vals, s)
+		p = append(p, addchain.Op{I: i, J: j})
+		return len(vals) - 1
+	}
+	runIdx := map[int]int{1: 0} // run length -> index of 2^len - 1
+	lens := []int{1}
+	for t := 0; t < steps; t++ {
+		top := 3
+		if len(lens) < top {
+			top = len(lens)
+		}
+		a := lens[len(lens)-1-g.R.Intn(top)]
+		b := lens[g.R.Intn(len(lens))]
+		if g.R.Bool() {
+			a, b = b, a
+		}
+		if _, ok := runIdx[a+b]; ok || a+b > 400 {
+			continue
+		}
+		k := runIdx[a]
+		for d := 0; d < b && k >= 0; d++ {
+			k = add(k, k)
+		}
+		if k < 0 {
+			break
+		}
+		var r int
+		if g.R.Bool() {
+			r = add(k, runIdx[b])
+		} else {
+			r = add(runIdx[b], k)
+		}
+		if r < 0 {
+			break
+		}
+		runIdx[a+b] = r
+		lens = append(lens, a+b)
+		if g.R.Intn(3) == 0 { // a stray addition re-using an earlier element
+			add(r, g.R.Intn(len(vals)))
+		}
+	}
+	return p
+}
+
 func genC04(g *Gen, emit func(g *Gen, p addchain.Program)) {
 	// the one-element chain
 	emit(g, addchain.Program{})
@@ -350,7 +412,7 @@ func genC04(g *Gen, emit func(g *Gen, p addchain.Program)) {
 		})
 	}
 	if g.Thorough {
-		c04Enum(g, 7, 40, func(p addchain.Program) {
+		c04Enum(g, 7, 8, func(p addchain.Program) {
 			emit(g, p)
 			g.Count("sampled-len7")
 		})
@@ -417,6 +479,12 @@ func genC04(g *Gen, emit func(g *Gen, p addchain.Program)) {
 		}
 		emit(g, res.Program)
 		g.Count("search")
+	}
+
+	// programs in the style of the runs algorithms (names x<n>)
+	for i := 0; i < g.pick(300, 2000); i++ {
+		emit(g, c04Runs(g, 6+g.R.Intn(20)))
+		g.Count("random-runs")
 	}
 
 	// random long programs
